@@ -5,7 +5,7 @@
    acknowledgement, completes the stream as soon as k >= unacked; and from every reachable incomplete state such a
    round exists (declare the frames without outcome LOST, emit, deliver, acknowledge). *)
 From Coq Require Import ZArith List Bool Lia ZifyBool Permutation.
-From AQ Require Import lib.Base model.RangeSet model.StreamRecv model.StreamSpec model.StreamSend model.NetSys
+From AQ Require Import lib.Base model.RangeSet model.StreamRecv model.StreamSpec model.StreamSend model.NetSys model.NetSysLive
   proofs.RangeSetP proofs.ListZ proofs.StreamRecvP proofs.StreamSendP proofs.NetSysP proofs.NetSysP2 proofs.NetSysP3
   proofs.NetSysP4.
 
